@@ -60,7 +60,10 @@ def run(ctx):
     # the cached dependency mapper is its non-memoizing counterpart plus the
     # look-aside: same handlers, every constructor option forwarded under its
     # own name (C09's rule instances)
-    from .c09 import DEP, _check_cached_dep
+    from .c09 import DEP, _check_cached_dep, combine_result_is_fresh
+    # a memoizing collector stores the very set combine() returns: combine may
+    # not grow a set it was handed (that set is some child's stored result)
+    combine_result_is_fresh(ctx, model, model.cls(f"{DEP}:DependencyMapper"))
     _check_cached_dep(ctx, model, model.cls(f"{DEP}:DependencyMapper"),
                       model.cls(f"{DEP}:CachedDependencyMapper"))
     _variants(ctx, model)
